@@ -1,61 +1,46 @@
 (* Hand-written glue between text files and the extracted Coq datatypes. *)
+module ZZ = Z
 open Model
+type string = Stdlib.String.t
+module String = Stdlib.String
+module List = Stdlib.List
 
-let rec pos_of_int (n : int) : positive =
-  if n <= 1 then XH else if n land 1 = 0 then XO (pos_of_int (n lsr 1)) else XI (pos_of_int (n lsr 1))
-
-let z_of_int (n : int) : z = if n = 0 then Z0 else if n > 0 then Zpos (pos_of_int n) else Zneg (pos_of_int (-n))
-
-let rec int_of_pos (p : positive) : int =
-  match p with XH -> 1 | XO q -> 2 * int_of_pos q | XI q -> 2 * int_of_pos q + 1
-
-let int_of_z (x : z) : int = match x with Z0 -> 0 | Zpos p -> int_of_pos p | Zneg p -> - (int_of_pos p)
+(* Z / positive / N are zarith integers (ExtrOcamlZBigInt); nat stays Peano *)
+let z_of_int (n : int) = Big_int_Z.big_int_of_int n
+let int_of_z x = Big_int_Z.int_of_big_int x
+let pos_of_int = z_of_int
+let int_of_pos = int_of_z
 
 let rec nat_of_int (n : int) : nat = if n <= 0 then O else S (nat_of_int (n - 1))
 let rec int_of_nat (n : nat) : int = match n with O -> 0 | S m -> 1 + int_of_nat m
 
-let rec pos_shift (p : positive) (k : int) : positive = if k <= 0 then p else pos_shift (XO p) (k - 1)
-
 (* exact conversion double -> Q *)
 let q_of_float (f : float) : q =
-  if f = 0.0 then { qnum = Z0; qden = XH }
+  if f = 0.0 then { qnum = Big_int_Z.zero_big_int; qden = Big_int_Z.unit_big_int }
   else begin
-    if Float.is_nan f || Float.is_integer f = false && Float.abs f = Float.infinity then failwith "q_of_float: not finite";
-    if Float.abs f = Float.infinity then failwith "q_of_float: infinite";
+    if Float.is_nan f || Float.abs f = Float.infinity then failwith "q_of_float: not finite";
     let (m, e) = Float.frexp f in                (* f = m * 2^e, 0.5 <= |m| < 1 *)
     let mi = Int64.to_int (Int64.of_float (Float.ldexp m 53)) in   (* exact: |mi| < 2^53 *)
     let e2 = e - 53 in
-    (* strip trailing zero bits *)
     let rec strip mi e2 = if mi land 1 = 0 && mi <> 0 then strip (mi asr 1) (e2 + 1) else (mi, e2) in
     let (mi, e2) = strip mi e2 in
-    let am = abs mi in
-    if e2 >= 0 then
-      let p = pos_shift (pos_of_int am) e2 in
-      { qnum = (if mi > 0 then Zpos p else Zneg p); qden = XH }
-    else
-      { qnum = (if mi > 0 then Zpos (pos_of_int am) else Zneg (pos_of_int am)); qden = pos_shift XH (-e2) }
+    if e2 >= 0 then { qnum = Big_int_Z.shift_left_big_int (Big_int_Z.big_int_of_int mi) e2; qden = Big_int_Z.unit_big_int }
+    else { qnum = Big_int_Z.big_int_of_int mi; qden = Big_int_Z.shift_left_big_int Big_int_Z.unit_big_int (-e2) }
   end
 
-let bits_msb_first (p : positive) : int list =
-  let rec go p acc = match p with XH -> 1 :: acc | XO q -> go q (0 :: acc) | XI q -> go q (1 :: acc) in
-  go p []
-
-(* positive -> (mantissa as float using the top 62 bits, binary exponent of the dropped part) *)
-let float_parts (p : positive) : float * int =
-  let bits = bits_msb_first p in
-  let rec go bits n m = match bits with
-    | [] -> (m, 0)
-    | b :: rest -> if n >= 62 then (m, List.length bits) else go rest (n + 1) (m *. 2.0 +. float_of_int b) in
-  go bits 0 0.0
+(* Q -> nearest-ish double (error below 2 ulp; exact when the value is a double) *)
+let float_parts (p : ZZ.t) : float * int =
+  let nb = ZZ.numbits p in
+  if nb <= 62 then (ZZ.to_float p, 0) else (ZZ.to_float (ZZ.shift_right p (nb - 62)), nb - 62)
 
 let float_of_q (x : q) : float =
-  match x.qnum with
-  | Z0 -> 0.0
-  | Zpos p | Zneg p ->
-    let (mn, en) = float_parts p in
+  let s = Big_int_Z.sign_big_int x.qnum in
+  if s = 0 then 0.0 else begin
+    let (mn, en) = float_parts (ZZ.abs x.qnum) in
     let (md, ed) = float_parts x.qden in
     let r = Float.ldexp (mn /. md) (en - ed) in
-    (match x.qnum with Zneg _ -> -. r | _ -> r)
+    if s < 0 then -. r else r
+  end
 
 let hex (f : float) : string = Printf.sprintf "%h" f
 let fl (s : string) : float = float_of_string s
